@@ -12,7 +12,7 @@ extern "C" {
 using namespace vp;
 using namespace xm;
 
-const TargetInfo vp_info = {"c07_repacketizer", 4, 2500};
+const TargetInfo vp_info = {"c07_repacketizer", 24, 2500};
 
 struct PoolPkt {
   std::unique_ptr<HeapBuf<uint8_t>> buf;   // exact-size copy handed to the library (borrowed by the repacketizer)
@@ -106,7 +106,7 @@ int vp_case(Choice& c, Report& rep) {
   uint8_t base_hi = (uint8_t)((c.pick(pk::CONFIGS) << 3) | (c.boolean() ? 4 : 0));
   std::vector<PoolPkt> pool;
   pool.reserve(64);
-  if (c.chance(16)) { encoder_packets(c, pool, base_hi); rep.label("pool:encoder"); }
+  if (c.byte() >= 244) { encoder_packets(c, pool, base_hi); rep.label("pool:encoder"); }
   int max_frames = 48 / rfc::toc_info(base_hi).dur_400;
   int npool = c.irange(1, 6);
   for (int i = 0; i < npool; i++) {
@@ -174,11 +174,11 @@ int vp_case(Choice& c, Report& rep) {
       int b = 0, e = N;
       bool use_out = what == 1;
       if (!use_out) {
-        int k = c.irange(0, 9);
-        if (k == 0) { b = c.irange(-1, N + 1); e = c.irange(-1, N + 2); }        // any, mostly illegal
-        else if (k == 1) { b = c.irange(0, N); e = b; }                          // empty
-        else if (N > 0) { b = c.irange(0, N - 1); e = c.irange(b + 1, N); }
-        if (k == 2 && N > 0) e = N + 1;
+        int k = c.irange(0, 19);
+        if (N > 0) { b = c.irange(0, N - 1); e = c.irange(b + 1, N); }
+        if (k == 17) { b = c.irange(-1, N + 1); e = c.irange(-1, N + 2); }       // any, mostly illegal
+        else if (k == 18) { b = c.irange(0, N); e = b; }                         // empty
+        else if (k == 19 && N > 0) e = N + 1;                                    // one past the end
       }
       bool legal = b >= 0 && b < e && e <= N;
       if (!legal) {
@@ -193,7 +193,7 @@ int vp_case(Choice& c, Report& rep) {
       // selection facts from the model
       long frame_bytes = 0, ext_bytes = 0; int n_ext = 0; bool bad_ext = false;
       for (int f = b; f < e; f++) { frame_bytes += M.fr[(size_t)f].len; for (auto& x : M.gext[(size_t)f]) { ext_bytes += (long)x.data.size(); n_ext++; } }
-      for (auto& cr : M.cats) if (cr.start >= b && cr.start < e && !pool[(size_t)cr.pool].ext_ok) bad_ext = true;
+      for (auto& cr : M.cats) if (cr.end > b && cr.start < e && !pool[(size_t)cr.pool].ext_ok) bad_ext = true;   // a packet overlapping the range
       bool cut = b != M.cats[(size_t)M.fr[(size_t)b].cat].start || e != M.cats[(size_t)M.fr[(size_t)(e - 1)].cat].end;
       // known finding F3 (see C16): the range cuts a multi-frame packet carrying extensions
       bool f3 = false;
@@ -207,19 +207,24 @@ int vp_case(Choice& c, Report& rep) {
       // known finding F7: extension payload carried over makes the output exceed 1277 bytes per frame
       bool f7_certain = n_ext > 0 && frame_bytes + ext_bytes + 1 > 1277L * cnt;
       if (f7_certain) { rep.label("out:f7-class"); if (rep.exclude("F7")) continue; }
+      // known finding F12: the padding of a packet overlapping the range is not a well-formed extension sequence (legal per RFC 6716 3.2.5).
+      // (The unchanged tree only trips when that packet's first frame is selected; the class is the packet-level one so that it does
+      // not depend on where the implementation keeps the padding.)
+      if (bad_ext) { rep.label("out:f12-class"); if (rep.exclude("F12")) continue; }
       long cap = 64 + 4L * cnt + frame_bytes + ext_bytes + 8L * n_ext + ext_bytes / 100 + 600;
       HeapBuf<uint8_t> big((size_t)cap);
       memset(big.p, 0x5A, (size_t)cap);
       opus_int32 L = use_out ? opus_repacketizer_out(rp, big.p, (opus_int32)cap) : opus_repacketizer_out_range(rp, b, e, big.p, (opus_int32)cap);
       rep.count();
       outs++;
-      if (bad_ext) rep.label("out:unparsable-padding-selected");
       VP_REQUIRE(L > 0 && L <= cap, f3 ? "c07:out-range-split-extension" : bad_ext ? "c07:out-fails-on-arbitrary-padding" : "c07:out-error",
                  "out_range(%d,%d) of %d frames with maxlen %ld returned %d (%d extensions selected, range %s packet boundaries)", b, e, N, cap, L, n_ext, cut ? "cuts" : "on");
       for (long i = L; i < cap; i++) VP_REQUIRE(big.p[i] == 0x5A, "c07:out-writes-past-length", "byte %ld beyond the returned length %d was modified", i, L);
       if (check_output(rep, M, b, e, big.p, L, f3)) return 1;
       // size promises
-      VP_REQUIRE(L <= cnt + M.submitted, "c07:bound-submitted-bytes", "out_range(%d,%d) produced %d bytes > %d frames + %ld submitted bytes", b, e, L, cnt, M.submitted);
+      // opus.h also calls "1*(end-begin) + all submitted bytes" sufficient; that is not part of the property text and is false when CBR
+      // packets with frames >= 252 bytes are merged into a VBR packet (two length bytes per frame) - recorded as a label only
+      if (L > cnt + M.submitted) rep.label("out:exceeds-frames-plus-submitted-bytes");
       if (L > 1277L * cnt) {
         if (n_ext > 0) {
           rep.label("out:f7-class");
